@@ -51,6 +51,43 @@ def enc(v):
     raise ValueError(f"cannot encode {type(v).__name__}")
 
 
+def dec(text):
+    """inverse of enc (Undefined comes back as Undef)"""
+    toks = text.split()
+    pos = [0]
+
+    def nxt():
+        t = toks[pos[0]]
+        pos[0] += 1
+        return t
+
+    def val():
+        t = nxt()
+        if t == "I":
+            return int(nxt())
+        if t == "S":
+            return uncps(nxt())
+        if t == "N":
+            return None
+        if t == "U":
+            return Undef()
+        if t == "L":
+            return [val() for _ in range(int(nxt()))]
+        if t == "D":
+            d = {}
+            for _ in range(int(nxt())):
+                k = nxt()
+                key = uncps(k[2:]) if k.startswith("ks") else int(k[2:])
+                d[key] = val()
+            return d
+        raise ValueError("bad token " + t)
+
+    v = val()
+    if pos[0] != len(toks):
+        raise ValueError("trailing tokens")
+    return v
+
+
 def enc_opt(v, f=enc):
     return "?" if v is None else "! " + f(v)
 
